@@ -165,8 +165,17 @@ def _run_rest(prog, tier, obs, info, problems):
             if (isinstance(n_, ast.Attribute) and n_.attr == "T") or (isinstance(n_, ast.Call) and U(n_.func).split(".")[-1] in
                                                                        ("transpose", "swapaxes", "moveaxis", "rollaxis")):
                 swaps_.append((st_.lineno, U(st_)[:80]))
+    # ... nor change their values: nothing rounds, clips or re-types the points on the way
+    for st_ in ast.walk(pp):
+        if isinstance(st_, (ast.Assign, ast.AugAssign, ast.Return)) and getattr(st_, "value", None) is not None:
+            for n_ in ast.walk(st_.value):
+                if isinstance(n_, ast.Call):
+                    nm_ = U(n_.func).split(".")[-1]
+                    if nm_ in ("round", "around", "round_", "rint", "floor", "ceil", "trunc", "fix", "clip", "unique", "sort") or (
+                            nm_ == "astype" and n_.args and U(n_.args[0]) not in ("float", "float64", "'float64'", "double")):
+                        swaps_.append((st_.lineno, U(st_)[:80] + "  [values changed]"))
     obs.append(struct_ob("query-normalisation", qual(c_pp, pp) + "[axes-kept]", not swaps_,
-                         "the query points' axes are exchanged: " + "; ".join(f"line {l_}: `{t_}`" for l_, t_ in swaps_[:2])
+                         "the query points' axes are exchanged / their values changed: " + "; ".join(f"line {l_}: `{t_}`" for l_, t_ in swaps_[:2])
                          + " - the predictors are then evaluated at other points than the caller's", REL, swaps_[0][0] if swaps_ else pp.lineno, tier="F"))
     # the training data are stored as given, row k of x with entry k of y and of the noise model: the constructor never re-orders or
     # selects rows of one of them
@@ -183,6 +192,19 @@ def _run_rest(prog, tier, obs, info, problems):
         if isinstance(st_, ast.Expr) and isinstance(st_.value, ast.Call) and isinstance(st_.value.func, ast.Attribute) \
                 and st_.value.func.attr in ("sort", "resize") and U(st_.value.func.value) in ("self.x", "self.y", "x", "y"):
             moved.append((st_.lineno, U(st_)[:80]))
+    # the noise matrix of the model is what check_error_data returned: self.sig is assigned from that call only (a jitter added to
+    # it afterwards is a noise model the caller did not give)
+    gci_ = prog.cls("GpRegressor")
+    for mname_, fn_ in gci_.methods.items():
+        for st_ in ast.walk(fn_):
+            tg_ = st_.targets[0] if isinstance(st_, ast.Assign) and len(st_.targets) == 1 else st_.target if isinstance(st_, ast.AugAssign) else None
+            b_ = tg_
+            while isinstance(b_, ast.Subscript):
+                b_ = b_.value
+            if b_ is not None and U(b_) == "self.sig":
+                v_ = st_.value if isinstance(st_, ast.Assign) and isinstance(tg_, ast.Attribute) else None
+                if not (isinstance(v_, ast.Call) and U(v_.func) == "self.check_error_data"):
+                    moved.append((st_.lineno, U(st_)[:80] + "  [noise matrix changed after it was built]"))
     obs.append(struct_ob("error-input-typestate", qual(c_in, gin) + "[data-rows-as-given]", not moved,
                          "training points, values and errors are paired by position: " + "; ".join(f"line {l_}: `{t_}`" for l_, t_ in moved[:2])
                          + " re-orders / selects rows of one array only", REL, moved[0][0] if moved else gin.lineno, tier="F"))
